@@ -11,7 +11,7 @@ use std::collections::BTreeSet;
 /// (generics, where, field type, concrete Self type, concrete field type, constructor value,
 ///  mutation through deref_mut (binding `d`), check on the field afterwards,
 ///  direct mutation of the field, check through deref (binding `r`))
-const ROWS: [(&str, &str, &str, &str, &str, &str, &str, &str, &str, &str); 14] = [
+const ROWS: [(&str, &str, &str, &str, &str, &str, &str, &str, &str, &str); 15] = [
     ("", "", "u8", "X", "u8", "5u8", "*d = 9;", "x.F == 9", "x.F = 3;", "*r == 3"),
     ("", "", "String", "X", "String", "String::from(\"a\")", "d.push('z');", "x.F == \"az\"", "x.F.push('q');", "r.as_str() == \"azq\""),
     ("", "", "Box<[u8]>", "X", "Box<[u8]>", "vec![1u8, 2].into_boxed_slice()", "d[0] = 7;", "x.F[0] == 7", "x.F[1] = 8;", "r[1] == 8"),
@@ -27,6 +27,8 @@ const ROWS: [(&str, &str, &str, &str, &str, &str, &str, &str, &str, &str); 14] =
     ("<const N: usize, T>", "", "[T; N]", "X<2, u8>", "[u8; 2]", "[1u8, 2]", "d[0] = 7;", "x.F[0] == 7", "x.F[1] = 8;", "r[1] == 8"),
     // a declared higher-ranked where-predicate
     ("<T>", "where for<'x> &'x T: IntoIterator<Item = &'x u8>", "T", "X<Vec<u8>>", "Vec<u8>", "vec![1u8]", "d.push(2);", "x.F == vec![1, 2]", "x.F.push(3);", "r.len() == 3"),
+    // a declared where-predicate whose LEFT side is concrete and whose bound mentions the parameter
+    ("<T>", "where u8: Into<T>", "Vec<T>", "X<u16>", "Vec<u16>", "vec![1u16]", "d.push(2);", "x.F == vec![1, 2]", "x.F.push(3);", "r.len() == 3"),
     ("<'a, const N: usize, T: Copy>", "where T: Default", "&'a [T; N]", "X<'static, 2, u8>", "&'static [u8; 2]", "&[1u8, 2]", "*d = &[7u8, 2];", "x.F[0] == 7", "x.F = &[7u8, 8];", "r[1] == 8"),
 ];
 
@@ -49,7 +51,8 @@ fn gen(ch: &mut Ch, _thorough: bool) -> Option<Case> {
     let row = ch.pick(ROWS.len());
     let named = ch.flag();
     // 4 = `#[derive_ex(Deref)] #[derive_ex(DerefMut)]` stacked, 5 = the same with the crate-qualified attribute path
-    let list = ch.pick(6);
+    // 6 = per-trait bounds that stop (`T: Clone`) next to a shared bound the instantiation need not satisfy (`T: Copy`)
+    let list = ch.pick(7);
     // (every generated case module now sits next to sibling modules named core / std / alloc, see runner.rs)
     let core_mod = false;
     let raw = ch.flag();
@@ -66,13 +69,16 @@ fn gen(ch: &mut Ch, _thorough: bool) -> Option<Case> {
     if list == 3 && (!ROWS[row].0.contains('T') || ROWS[row].0.contains("?Sized") || ROWS[row].3.contains("Vec<")) {
         return None;
     }
+    if list == 6 && (!ROWS[row].0.contains('T') || ROWS[row].0.contains("?Sized")) {
+        return None;
+    }
     Some(Case { vector: ch.vector(), row, named, list, raw, core_mod, entry })
 }
 
 fn build(c: &Case, tier: &str) -> XCase {
     let (g, wh, fty, selfty, cfty, ctor, mut_d, chk_f, mut_f, chk_r) = ROWS[c.row];
     let f = if c.named { if c.raw { "r#type" } else { "inner" } } else { "0" };
-    let list = ["Deref, DerefMut", "Deref", "DerefMut", "Deref, DerefMut, bound(T: ::core::marker::Copy)", "Deref)] #[derive_ex(DerefMut", "Deref)] #[::derive_ex::derive_ex(DerefMut"][c.list];
+    let list = ["Deref, DerefMut", "Deref", "DerefMut", "Deref, DerefMut, bound(T: ::core::marker::Copy)", "Deref)] #[derive_ex(DerefMut", "Deref)] #[::derive_ex::derive_ex(DerefMut", "Deref(bound(T: ::core::clone::Clone)), DerefMut(bound(T: ::core::clone::Clone)), bound(T: ::core::marker::Copy)"][c.list];
     let head = match c.entry {
         Entry::Attr if c.list == 5 => format!("#[::derive_ex::derive_ex({list})]"),
         Entry::Attr => format!("#[derive_ex({list})]"),
